@@ -22,6 +22,7 @@ ASSUMPTIONS = ["LookBack is excluded (its process() raises by design)",
 REQUIRED_COUNTERS = ["purity_checks", "representation_equivalence", "parity_identities", "barrier_identities", "average_bounds",
                      "default_time_checks", "nth_default_monotone", "notional_linearity"]
 MIN_NONTRIVIAL = {"quick": 100, "thorough": 2000}
+THOROUGH_ROUNDS = 15      # the thorough tier runs the generators this many times (different seeds)
 
 
 def gen_cases(tier, seed):
